@@ -507,6 +507,10 @@ def family(thorough):
                     for kind in ("pie", "shared"):
                         fam.append(("ext-orders", (contrib_ext(a), contrib_ext(b), efixed), order,
                                     kind))
+    # the big pairwise sweep goes last, so that a run stopped by the wall cap has still covered
+    # every other sub-family completely
+    rank = {"orders": 0, "ext": 1, "ext-orders": 2, "pairs02": 3, "pairs12": 3, "pairs01": 4}
+    fam.sort(key=lambda x: rank[x[0]])
     seen, out = set(), []
     n_dup = 0
     for tag, cs, order, kind in fam:
@@ -570,7 +574,10 @@ def main():
     if chk.seed:
         import random
         random.Random(chk.seed).shuffle(fam)
-    cap = 780 if chk.thorough else 50
+        fam.sort(key=lambda x: x[0] == "pairs01")
+    # Wall cap on the enumeration (a capped run is reported as not exhaustive). VERIF_C30_CAP
+    # overrides it, e.g. to finish a thorough run on a machine that is busy with other work.
+    cap = float(os.environ.get("VERIF_C30_CAP", 0) or (600 if chk.thorough else 50))
     t0 = time.time()
     stats = dict(evaluations=0, gnu_rejects=0, gnu_rejects_wild_accepts=0, wild_rejects=0,
                  native_runs=0, members_with_violation=0, run_differs_with_static_violation=0,
@@ -627,7 +634,7 @@ def main():
                     if len(samples) < 3 and tag in ("orders", "ext") and res["n_entries"] >= 12 \
                             and (not samples or samples[-1]["family"] != tag):
                         samples.append(dict(describe(m), family=tag,
-                                            gnu_ld_arrays={s: [f"u{e[2]}:{e[0]}:{e[1]}"
+                                            gnu_ld_arrays={s: [f"cmdline-pos{e[2]}:{e[0]}:{e[1]}"
                                                                for e in seq]
                                                            for s, seq in res["sig"]}))
             done += len(part)
